@@ -111,6 +111,10 @@ FIRE = [
     ("collapse-reshape-axes-swapped", "C10", [(BACK, "(before_index_length, 2, after_index_length))", "(after_index_length, 2, before_index_length))")], "K9.collapse"),
     ("collapse-keeps-wrong-slice", "C10", [(BACK, "    sv_selected[:, (result + 1) % 2, :] = 0", "    sv_selected[:, result, :] = 0")], "K9.collapse"),
     # ---- C12
+    ("reorder-beta-offset-floor", "C12", [(MT, "    remapped[1::2] += int(np.ceil(n_spinorbitals / 2.))", "    remapped[1::2] += int(np.ceil(n_spinorbitals / 2.)) - 1")], "K8.spin-ordering"),
+    ("reorder-ladder-type-lost", "C12", [(MT, "        new_term = tuple([(int(remapped[ti[0]]), ti[1]) for ti in term])", "        new_term = tuple([(int(remapped[ti[0]]), 1) for ti in term])")], "K8.spin-ordering"),
+    ("vector-reordered-twice-for-scbk", "C12", [(SV, "        if not up_then_down:\n            warnings.warn(", "        if True:\n            warnings.warn(")], "K8.spin-ordering"),
+    ("vector-odd-before-even", "C12", [(SV, "    if up_then_down:\n        vector = np.concatenate((vector[::2], vector[1::2]))", "    if up_then_down:\n        vector = np.concatenate((vector[1::2], vector[::2]))")], "K8.spin-ordering"),
     ("s2-exchange-coefficient", "C12", [(FO, "                                 [((up[0], 1), (dn[1], 0), (dn2[0], 1), (up2[1], 0)), 1/2],", "                                 [((up[0], 1), (dn[1], 0), (dn2[0], 1), (up2[1], 0)), 1/4],")], "K9.symmetry-operators"),
     ("sz-sign", "C12", [(FO, "[((up[0], 1), (up[1], 0)), 1/2], [((dn[0], 1), (dn[1], 0)), -1/2]", "[((up[0], 1), (up[1], 0)), 1/2], [((dn[0], 1), (dn[1], 0)), 1/2]")], "K9.symmetry-operators"),
     # ---- C04
@@ -180,6 +184,8 @@ SILENT = [
     ("trim-states-sorted-by-key", "C14", [(TRIM, "    return circuit_new, dict(sorted(trim_states.items()))", "    return circuit_new, {q: trim_states[q] for q in sorted(trim_states)}")]),
     ("trim-more-phase-gates", "C14", [(TRIM, '            if gate0.name in {"RZ", "Z"}:\n                qubit_idx = e_indices[i].pop()\n                trim_states[qubit_idx] = 0\n            elif gate0.name in {"X", "RX"} and gate_0_is_bitflip:', '            if gate0.name in {"RZ", "Z", "S", "T", "PHASE"}:\n                qubit_idx = e_indices[i].pop()\n                trim_states[qubit_idx] = 0\n            elif gate0.name in {"X", "RX"} and gate_0_is_bitflip:')]),
     ("trim-y-flips-too", "C14", [(TRIM, '            elif gate0.name in {"X", "RX"} and gate_0_is_bitflip:\n                qubit_idx = e_indices[i].pop()\n                trim_states[qubit_idx] = 1\n            else:', '            elif gate0.name in {"X", "RX", "Y", "RY"} and gate_0_is_bitflip:\n                qubit_idx = e_indices[i].pop()\n                trim_states[qubit_idx] = 1\n            else:')]),
+    ("reorder-arange-spelling", "C12", [(MT, "    remapped = np.linspace(0, n_spinorbitals - 1, n_spinorbitals, dtype=int)//2\n    remapped[1::2] += int(np.ceil(n_spinorbitals / 2.))", "    remapped = np.arange(n_spinorbitals)//2\n    remapped[1::2] += n_spinorbitals // 2")]),
+    ("vector-reorder-spelling", "C12", [(SV, "    if up_then_down:\n        vector = np.concatenate((vector[::2], vector[1::2]))", "    if up_then_down:\n        alpha, beta = vector[0::2], vector[1::2]\n        vector = np.concatenate((alpha, beta))")]),
     ("angle-law-spelling", "C06", [(AU, "    angle = 2.*coef if coef >= 0. else 4*np.pi+2*coef", "    angle = 2.*coef + (0. if coef >= 0. else 4*np.pi)")]),
     ("cirq-branches-reordered", "C01", [(TCIRQ, '        elif gate_name in {"SWAP"}:\n            target_circuit.append(GATE_CIRQ[gate_name](qubit_list[gate.target[0]], qubit_list[gate.target[1]]))\n        elif gate_name in {"CSWAP"}:\n            next_gate = GATE_CIRQ[gate_name].controlled(num_controls)\n            target_circuit.append(next_gate(*control_list, qubit_list[gate.target[0]], qubit_list[gate.target[1]]))\n',
                                          '        elif gate_name in {"CSWAP"}:\n            next_gate = GATE_CIRQ[gate_name].controlled(num_controls)\n            target_circuit.append(next_gate(*control_list, qubit_list[gate.target[0]], qubit_list[gate.target[1]]))\n        elif gate_name in {"SWAP"}:\n            target_circuit.append(GATE_CIRQ[gate_name](qubit_list[gate.target[0]], qubit_list[gate.target[1]]))\n')]),
